@@ -36,7 +36,7 @@ STREAM_GEN = ["C05_stream_gen", "C05_stream_gen_model", "C05_stream_read_gen", "
 FILLADD = ["C05_readfull_additive", "C05_reader_state_unique"]
 EXACT = ["C05_stream_gen_exact", "C05_read_sequence_gen", "C05_retry_gen"]
 # phase 4: the reader after a failed io.ReadFull, wkb.Read called again (Retry.lean, ProofsRetry.lean)
-RETRY = ["C05_readfull_failed", "C05_failed_read_state", "C05_retry"]
+RETRY = ["C05_readfull_failed", "C05_failed_read_state", "C05_retry", "C05_read_failure_observed"]
 FUEL = ["C05_truncated_decode", "C05_decode_no_fuel", "C05_fuel_irrelevant"]
 # wkb.Write call by call over a model of io.Writer (lean/GeomV/C05/Sink.lean, ProofsSink.lean)
 SINK = ["C05_sink_ok", "C05_sink_prefix", "C05_sink_limit", "C05_sink_limit_fresh", "C05_sink_unsupported", "C05_sink_unsupported_any"]
